@@ -81,7 +81,6 @@ func init() {
 	}
 }
 
-
 // unixSeconds: ns / 10^9 is not bit-blasted (a 72-bit division by 10^9 stalls every solver here). The seconds of an
 // instant are an uninterpreted function of its nanoseconds with the facts the targets rely on: it is monotone, it
 // commutes with adding a whole number of seconds, and it is non-negative for the plausible range.
